@@ -219,6 +219,16 @@ def main():
                   ["y", "z", "w", "x"], C)
             check(f"compute_marginal[feature,{bm}]", lambda c: (lambda: compute_marginal(c["y"], c["z"], X=as_matrix(c["x"]), feature_name=0, weights=c["w"], n_bins=3, bin_method=bm)),
                   ["y", "z", "w", "x"], C)
+        # a float feature containing NaN (its rows form the null bin) in every container
+        if k >= 3:
+            fnan = [rng.choice([0.5, 1.5, 2.5, 3.0]) for _ in range(k)]
+            fnan[rng.randrange(k)] = float("nan")
+            C["xn"] = {"f64": np.asarray(fnan, dtype=np.float64), "list": list(fnan), "tuple": tuple(fnan), "series": pl.Series(fnan)}
+            for bm in ("quantile", "uniform"):
+                check(f"compute_bias[feature with NaN,{bm}]", lambda c: (lambda: compute_bias(c["y"], c["z"], feature=c["xn"], functional="mean", n_bins=3, bin_method=bm)),
+                      ["y", "z", "xn"], C)
+                check(f"compute_marginal[feature with NaN,{bm}]", lambda c: (lambda: compute_marginal(c["y"], c["z"], X=as_matrix(c["xn"]), feature_name=0, n_bins=3, bin_method=bm)),
+                      ["y", "z", "xn"], C)
     # deduplicate failures by (api, container)
     seen, uniq = set(), []
     for f in fails:
